@@ -62,6 +62,9 @@ def run_job(job, tier, seed, outdir):
         cmd += ["--witnesses", str(job["xproc"])]
     if job.get("closure", True):
         cmd += ["--closure"]
+    if job.get("probe"):
+        # budgeted bug-hunting run on an instance that cannot close: spread the explored paths (seeded)
+        cmd += ["--random-pop", str(1 + seed)]
     t0 = time.time()
     try:
         r = subprocess.run(cmd, cwd=ROOT, env=env(), capture_output=True, text=True, timeout=job.get("secs", 60) * 2 + 120)
